@@ -1465,12 +1465,31 @@ func (g *gen) switchStmt() {
 		_ = tagless
 	}
 	used := map[int]bool{}
+	constFalse := false
 	for c := 0; c <= ncase; c++ {
 		if c == defAt {
 			g.f("switch-default")
 			g.line("default:")
 		} else if c == ncase {
 			break
+		} else if tagless && g.r.Intn(3) == 0 && !g.off("switch-tagless-case-list") {
+			// a clause with a LIST of conditions: evaluated left to right, the clause is chosen at the first true one
+			// (F53: the unchanged tree looks at the first expression only)
+			g.f("switch-tagless-case-list")
+			var items []string
+			for n := 2 + g.r.Intn(2); n > 0; n-- {
+				switch k := g.r.Intn(5); {
+				case k == 0 && !constFalse:
+					constFalse = true // at most one constant per switch: duplicate constant cases do not compile
+					items = append(items, "2 < 1")
+				case k == 1:
+					g.f("switch-tagless-case-list-call")
+					items = append(items, fmt.Sprintf("sb(%q, %s)", g.fresh("c"), g.expr(tBool, 1)))
+				default:
+					items = append(items, g.expr(tBool, 1))
+				}
+			}
+			g.line("case %s:", strings.Join(items, ", "))
 		} else if tagless {
 			if initVar != "" {
 				g.line("case %s > %d || %s:", initVar, g.r.Intn(9), g.expr(tBool, 1))
@@ -1613,6 +1632,9 @@ func mkA(a int) ([3]int, string) { return [3]int{a, a + 1, a * a}, fmt.Sprint("s
 func mkP1(a int) P { return P{a, -a} }
 
 func mkI(a int) (string, int) { return fmt.Sprint("i", a), a * 3 }
+
+// sb prints its tag: which conditions of a case list are evaluated, and in which order
+func sb(tag string, b bool) bool { fmt.Println(tag); return b }
 
 // named results assigned before a panic, and changed by a deferred closure (construct named-result-recover)
 func nrP(a int) (r int) {
